@@ -619,20 +619,20 @@ theorem lsTop_none : ∀ (l : List LSVertex), lsTop l = none → l = []
     | some t' => rw [hrec] at h; simp only at h; split at h <;> simp at h
 
 /-- what the `for` over the vertices guarantees -/
-theorem lsScan_spec (m : Model) (τ : Rat) (Γ : List Vec) (acc : Rat → Bool) (good : List Vec) :
+theorem lsScan_spec (m : Model) (sup : Vec → Vec) (acc : Rat → Bool) (good : List Vec) :
     ∀ (xs : List Vec) (ag : List LSVertex) (tr : List Vec),
-      (∀ v ∈ ag, v ∈ (lsScan m τ Γ acc good xs ag tr).1) ∧
-      (∀ v ∈ (lsScan m τ Γ acc good xs ag tr).1, v ∈ ag ∨ ∃ x, v.support = bestBackupAt m τ Γ x) ∧
+      (∀ v ∈ ag, v ∈ (lsScan m sup acc good xs ag tr).1) ∧
+      (∀ v ∈ (lsScan m sup acc good xs ag tr).1, v ∈ ag ∨ ∃ x, v.support = sup x) ∧
       (∀ x ∈ xs, tr.any (fun y => y == x) = true ∨ xs.any (fun y => y == x) = true ∧
-          ((∃ v ∈ (lsScan m τ Γ acc good xs ag tr).1, v.belief = x) ∨
-           acc (dot m.S x (bestBackupAt m τ Γ x) - env m.S good x) = false)) := by
+          ((∃ v ∈ (lsScan m sup acc good xs ag tr).1, v.belief = x) ∨
+           acc (dot m.S x (sup x) - env m.S good x) = false)) := by
   intro xs
   induction xs with
   | nil => intro ag tr; simp only [lsScan]; exact ⟨fun _ h => h, fun _ h => Or.inl h, by simp⟩
   | cons x xs ih =>
     intro ag tr
     by_cases ht : tr.any (fun y => y == x) = true
-    · have e : lsScan m τ Γ acc good (x :: xs) ag tr = lsScan m τ Γ acc good xs ag tr := by
+    · have e : lsScan m sup acc good (x :: xs) ag tr = lsScan m sup acc good xs ag tr := by
         simp only [lsScan, ht, if_true]
       rw [e]
       obtain ⟨h1, h2, h3⟩ := ih ag tr
@@ -643,15 +643,15 @@ theorem lsScan_spec (m : Model) (τ : Rat) (Γ : List Vec) (acc : Rat → Bool) 
       · rcases h3 y hy with h | ⟨ha, h⟩
         · exact Or.inl h
         · exact Or.inr ⟨by simp only [List.any_cons, ha, Bool.or_true], h⟩
-    · have e : lsScan m τ Γ acc good (x :: xs) ag tr =
-          lsScan m τ Γ acc good xs
-            (if acc (dot m.S x (bestBackupAt m τ Γ x) - env m.S good x) then
-              ag ++ [⟨x, bestBackupAt m τ Γ x, env m.S good x, dot m.S x (bestBackupAt m τ Γ x) - env m.S good x⟩] else ag)
+    · have e : lsScan m sup acc good (x :: xs) ag tr =
+          lsScan m sup acc good xs
+            (if acc (dot m.S x (sup x) - env m.S good x) then
+              ag ++ [⟨x, sup x, env m.S good x, dot m.S x (sup x) - env m.S good x⟩] else ag)
             (x :: tr) := by
         simp only [lsScan, ht, Bool.false_eq_true, if_false]
       rw [e]
-      obtain ⟨h1, h2, h3⟩ := ih (if acc (dot m.S x (bestBackupAt m τ Γ x) - env m.S good x) then
-              ag ++ [⟨x, bestBackupAt m τ Γ x, env m.S good x, dot m.S x (bestBackupAt m τ Γ x) - env m.S good x⟩] else ag) (x :: tr)
+      obtain ⟨h1, h2, h3⟩ := ih (if acc (dot m.S x (sup x) - env m.S good x) then
+              ag ++ [⟨x, sup x, env m.S good x, dot m.S x (sup x) - env m.S good x⟩] else ag) (x :: tr)
       refine ⟨?_, ?_, ?_⟩
       · intro v hv
         apply h1
@@ -670,9 +670,9 @@ theorem lsScan_spec (m : Model) (τ : Rat) (Γ : List Vec) (acc : Rat → Bool) 
         rcases List.mem_cons.mp hy with rfl | hy
         · right
           refine ⟨by simp, ?_⟩
-          by_cases hacc : acc (dot m.S y (bestBackupAt m τ Γ y) - env m.S good y) = true
+          by_cases hacc : acc (dot m.S y (sup y) - env m.S good y) = true
           · left
-            refine ⟨⟨y, bestBackupAt m τ Γ y, env m.S good y, dot m.S y (bestBackupAt m τ Γ y) - env m.S good y⟩, h1 _ ?_, rfl⟩
+            refine ⟨⟨y, sup y, env m.S good y, dot m.S y (sup y) - env m.S good y⟩, h1 _ ?_, rfl⟩
             rw [if_pos hacc]; simp
           · right; simpa using hacc
         · rcases h3 y hy with h | ⟨ha, h⟩
@@ -683,42 +683,46 @@ theorem lsScan_spec (m : Model) (τ : Rat) (Γ : List Vec) (acc : Rat → Bool) 
               have hyx : x = y := by simpa using h
               subst hyx
               refine ⟨by simp, ?_⟩
-              by_cases hacc : acc (dot m.S x (bestBackupAt m τ Γ x) - env m.S good x) = true
+              by_cases hacc : acc (dot m.S x (sup x) - env m.S good x) = true
               · left
-                refine ⟨⟨x, bestBackupAt m τ Γ x, env m.S good x, dot m.S x (bestBackupAt m τ Γ x) - env m.S good x⟩, h1 _ ?_, rfl⟩
+                refine ⟨⟨x, sup x, env m.S good x, dot m.S x (sup x) - env m.S good x⟩, h1 _ ?_, rfl⟩
                 rw [if_pos hacc]; simp
               · right; simpa using hacc
             · exact Or.inl h
           · exact Or.inr ⟨by simp only [List.any_cons, ha, Bool.or_true], h⟩
 
+/-- what the loop needs from `crossSumBestAtBelief`: a genuine backup, optimal at the point -/
+def GoodSup (m : Model) (τ : Rat) (Γ : List Vec) (sup : Vec → Vec) : Prop :=
+  ∀ x, sup x ∈ backupAll m τ Γ ∧ dot m.S x (sup x) = env m.S (backupAll m τ Γ) x
+
 /-- invariant: everything held as a support is a genuine backup of Γ -/
 def LSInv (m : Model) (τ : Rat) (Γ : List Vec) (st : LSState) : Prop :=
   (∀ g ∈ st.good, g ∈ backupAll m τ Γ) ∧ (∀ v ∈ st.agenda, v.support ∈ backupAll m τ Γ)
 
-theorem lsCorners_sound (m : Model) (hA : 0 < m.A) (τ : Rat) (Γ : List Vec) (hΓ : Γ ≠ []) :
-    ∀ s, ∀ g ∈ lsCorners m τ Γ s, g ∈ backupAll m τ Γ
+theorem lsCorners_sound (m : Model) (τ : Rat) (Γ : List Vec) (sup : Vec → Vec) (hsup : GoodSup m τ Γ sup) :
+    ∀ s, ∀ g ∈ lsCorners m sup s, g ∈ backupAll m τ Γ
   | 0 => by simp [lsCorners]
   | s+1 => by
     intro g hg
     simp only [lsCorners] at hg
     split at hg
-    · exact lsCorners_sound m hA τ Γ hΓ s g hg
+    · exact lsCorners_sound m τ Γ sup hsup s g hg
     · rcases List.mem_append.mp hg with h | h
-      · exact lsCorners_sound m hA τ Γ hΓ s g h
-      · simp at h; subst h; exact bestBackupAt_mem m hA τ Γ hΓ _
+      · exact lsCorners_sound m τ Γ sup hsup s g h
+      · simp at h; subst h; exact (hsup _).1
 
-theorem lsStep_inv (m : Model) (hA : 0 < m.A) (τ : Rat) (Γ : List Vec) (hΓ : Γ ≠ []) (acc : Rat → Bool)
-    (oracle : Vec → List Vec → List Vec) (st st' : LSState) (h : LSInv m τ Γ st) (hs : lsStep m τ Γ acc oracle st = some st') :
+theorem lsStep_inv (m : Model) (τ : Rat) (Γ : List Vec) (sup : Vec → Vec) (hsup : GoodSup m τ Γ sup) (acc : Rat → Bool)
+    (oracle : Vec → List Vec → List Vec) (st st' : LSState) (h : LSInv m τ Γ st) (hs : lsStep m sup acc oracle st = some st') :
     LSInv m τ Γ st' := by
   unfold lsStep at hs
   simp only [] at hs
-  have sp := lsScan_spec m τ Γ acc st.good st.verts st.agenda st.tried
-  have hag : ∀ v ∈ (lsScan m τ Γ acc st.good st.verts st.agenda st.tried).1, v.support ∈ backupAll m τ Γ := by
+  have sp := lsScan_spec m sup acc st.good st.verts st.agenda st.tried
+  have hag : ∀ v ∈ (lsScan m sup acc st.good st.verts st.agenda st.tried).1, v.support ∈ backupAll m τ Γ := by
     intro v hv
     rcases sp.2.1 v hv with h1 | ⟨x, hx⟩
     · exact h.2 v h1
-    · rw [hx]; exact bestBackupAt_mem m hA τ Γ hΓ x
-  cases htop : lsTop (lsScan m τ Γ acc st.good st.verts st.agenda st.tried).1 with
+    · rw [hx]; exact (hsup x).1
+  cases htop : lsTop (lsScan m sup acc st.good st.verts st.agenda st.tried).1 with
   | none => rw [htop] at hs; simp at hs
   | some best =>
     rw [htop] at hs
@@ -736,30 +740,30 @@ theorem lsStep_inv (m : Model) (hA : 0 < m.A) (τ : Rat) (Γ : List Vec) (hΓ : 
 /-- **ls_sound** — for ANY vertex oracle, acceptance test and number of iterations: every vector LinearSupport holds is a genuine
     backup, so the set it returns is a lower bound of the exact backup at every belief (and exact at every belief it scanned and did not
     queue, see `ls_break_tested`). -/
-theorem ls_sound (m : Model) (hA : 0 < m.A) (τ : Rat) (Γ : List Vec) (hΓ : Γ ≠ []) (acc : Rat → Bool)
+theorem ls_sound (m : Model) (τ : Rat) (Γ : List Vec) (sup : Vec → Vec) (hsup : GoodSup m τ Γ sup) (acc : Rat → Bool)
     (oracle : Vec → List Vec → List Vec) :
-    ∀ (fuel : Nat) (st : LSState), LSInv m τ Γ st → LSInv m τ Γ (lsLoop m τ Γ acc oracle fuel st) := by
+    ∀ (fuel : Nat) (st : LSState), LSInv m τ Γ st → LSInv m τ Γ (lsLoop m sup acc oracle fuel st) := by
   intro fuel
   induction fuel with
   | zero => intro st h; exact h
   | succ f ih =>
     intro st h
     simp only [lsLoop]
-    cases hs : lsStep m τ Γ acc oracle st with
+    cases hs : lsStep m sup acc oracle st with
     | none => exact ⟨h.1, by simp⟩
-    | some st' => exact ih st' (lsStep_inv m hA τ Γ hΓ acc oracle st st' h hs)
+    | some st' => exact ih st' (lsStep_inv m τ Γ sup hsup acc oracle st st' h hs)
 
 /-- **ls_break_tested** — when the loop breaks (agenda empty after the scan), every vertex of the batch just examined was either examined
     before or fails the acceptance test against the current set; with `acc d = false → d ≤ ε` this is the ε-stopping test
     `env(backupAll Γ) x ≤ env good x + ε`. -/
-theorem ls_break_tested (m : Model) (hA : 0 < m.A) (τ : Rat) (Γ : List Vec) (hΓ : Γ ≠ []) (acc : Rat → Bool) (ε : Rat)
+theorem ls_break_tested (m : Model) (τ : Rat) (Γ : List Vec) (sup : Vec → Vec) (hsup : GoodSup m τ Γ sup) (acc : Rat → Bool) (ε : Rat)
     (hacc : ∀ d, acc d = false → d ≤ ε)
-    (oracle : Vec → List Vec → List Vec) (st : LSState) (hs : lsStep m τ Γ acc oracle st = none) :
+    (oracle : Vec → List Vec → List Vec) (st : LSState) (hs : lsStep m sup acc oracle st = none) :
     ∀ x ∈ st.verts, st.tried.any (fun y => y == x) = true ∨ env m.S (backupAll m τ Γ) x ≤ env m.S st.good x + ε := by
   unfold lsStep at hs
   simp only [] at hs
-  have sp := lsScan_spec m τ Γ acc st.good st.verts st.agenda st.tried
-  cases htop : lsTop (lsScan m τ Γ acc st.good st.verts st.agenda st.tried).1 with
+  have sp := lsScan_spec m sup acc st.good st.verts st.agenda st.tried
+  cases htop : lsTop (lsScan m sup acc st.good st.verts st.agenda st.tried).1 with
   | some best => rw [htop] at hs; simp at hs
   | none =>
     have hemp := lsTop_none _ htop
@@ -770,9 +774,104 @@ theorem ls_break_tested (m : Model) (hA : 0 < m.A) (τ : Rat) (Γ : List Vec) (h
       rcases h with ⟨v, hv, _⟩ | h
       · rw [hemp] at hv; simp at hv
       · have := hacc _ h
-        rw [bestBackupAt_value m hA τ Γ hΓ x] at this
+        rw [(hsup x).2] at this
         linarith
 
+
+
+/-! ### `findBestAtPoint` with its `veccmp` tie-break: same membership and value facts, so the loop theorems apply to it -/
+
+theorem bestAtV_fold (n : Nat) (b : Vec) : ∀ (r : List Vec) (x : Vec),
+    (r.foldl (fun best y => if dot n b best < dot n b y || (decide (dot n b y = dot n b best) && vecGt n y best) then y else best) x) ∈ x :: r ∧
+    ∀ α ∈ x :: r, dot n b α ≤ dot n b (r.foldl (fun best y => if dot n b best < dot n b y || (decide (dot n b y = dot n b best) && vecGt n y best) then y else best) x) := by
+  intro r
+  induction r with
+  | nil => intro x; simp
+  | cons y r ih =>
+    intro x
+    simp only [List.foldl_cons]
+    have hx' : ∀ x' : Vec, x' = (if dot n b x < dot n b y || (decide (dot n b y = dot n b x) && vecGt n y x) then y else x) →
+        (x' = x ∨ x' = y) ∧ dot n b x ≤ dot n b x' ∧ dot n b y ≤ dot n b x' := by
+      intro x' hx'
+      by_cases hc : (dot n b x < dot n b y || (decide (dot n b y = dot n b x) && vecGt n y x)) = true
+      · rw [if_pos hc] at hx'
+        subst hx'
+        refine ⟨Or.inr rfl, ?_, le_refl _⟩
+        simp only [Bool.or_eq_true, decide_eq_true_eq, Bool.and_eq_true] at hc
+        rcases hc with h | ⟨h, _⟩
+        · exact le_of_lt h
+        · exact le_of_eq h.symm
+      · rw [if_neg hc] at hx'
+        subst hx'
+        refine ⟨Or.inl rfl, le_refl _, ?_⟩
+        simp only [Bool.or_eq_true, decide_eq_true_eq, Bool.and_eq_true, not_or] at hc
+        exact not_lt.mp hc.1
+    obtain ⟨hmem, hle⟩ := ih (if dot n b x < dot n b y || (decide (dot n b y = dot n b x) && vecGt n y x) then y else x)
+    obtain ⟨hor, h1, h2⟩ := hx' _ rfl
+    constructor
+    · rcases List.mem_cons.mp hmem with h | h
+      · rcases hor with e | e
+        · rw [h, e]; exact List.mem_cons_self
+        · rw [h, e]; exact List.mem_cons_of_mem _ List.mem_cons_self
+      · exact List.mem_cons_of_mem _ (List.mem_cons_of_mem _ h)
+    · intro α hα
+      have hx0 := hle _ List.mem_cons_self
+      rcases List.mem_cons.mp hα with rfl | hα
+      · exact le_trans h1 hx0
+      · rcases List.mem_cons.mp hα with rfl | hα
+        · exact le_trans h2 hx0
+        · exact hle α (List.mem_cons_of_mem _ hα)
+
+theorem bestAtV_spec (n : Nat) (b : Vec) (l : List Vec) (hl : l ≠ []) :
+    bestAtV n b l ∈ l ∧ dot n b (bestAtV n b l) = env n l b := by
+  cases l with
+  | nil => exact absurd rfl hl
+  | cons x r =>
+    obtain ⟨hm, hle⟩ := bestAtV_fold n b r x
+    refine ⟨hm, (env_eq_of n (x :: r) b _ ⟨_, hm, rfl⟩ hle).symm⟩
+
+theorem bestRowToV_mem (n : Nat) (b : Vec) (k : Nat) (P : Nat → List Vec) (hP : ∀ o, o < k → P o ≠ []) :
+    bestRowToV n b k P ∈ crossTo n k P := by
+  induction k with
+  | zero => simp [bestRowToV, crossTo]
+  | succ k ih =>
+    simp only [bestRowToV, crossTo, crossSum]
+    exact List.mem_flatMap.mpr ⟨_, ih (fun o ho => hP o (by omega)),
+      List.mem_map.mpr ⟨_, (bestAtV_spec n b (P k) (hP k (by omega))).1, rfl⟩⟩
+
+theorem bestRowToV_value (n : Nat) (b : Vec) (k : Nat) (P : Nat → List Vec) (hP : ∀ o, o < k → P o ≠ []) :
+    dot n b (bestRowToV n b k P) = env n (crossTo n k P) b := by
+  rw [env_crossTo n k P b hP]
+  induction k with
+  | zero => simp [bestRowToV, sumTo, dot_vzero]
+  | succ k ih =>
+    simp only [bestRowToV, sumTo]
+    rw [dot_vadd, ih (fun o ho => hP o (by omega)), (bestAtV_spec n b (P k) (hP k (by omega))).2]
+
+/-- both forms of `crossSumBestAtBelief` (first-best, and with `findBestAtPoint`'s `veccmp` tie-break) satisfy what the loop needs -/
+theorem goodSup_bestBackupAt (m : Model) (hA : 0 < m.A) (τ : Rat) (Γ : List Vec) (hΓ : Γ ≠ []) :
+    GoodSup m τ Γ (bestBackupAt m τ Γ) :=
+  fun x => ⟨bestBackupAt_mem m hA τ Γ hΓ x, bestBackupAt_value m hA τ Γ hΓ x⟩
+
+theorem goodSup_bestBackupAtV (m : Model) (hA : 0 < m.A) (τ : Rat) (Γ : List Vec) (hΓ : Γ ≠ []) :
+    GoodSup m τ Γ (bestBackupAtV m τ Γ) := by
+  intro b
+  obtain ⟨k, hk⟩ : ∃ k, m.A = k + 1 := ⟨m.A - 1, by omega⟩
+  have hk1 : m.A - 1 = k := by omega
+  have hval : ∀ a, dot m.S b (bestRowToV m.S b m.O (projList m τ Γ a)) = env m.S (backupA m τ Γ a) b :=
+    fun a => bestRowToV_value m.S b m.O _ (fun o _ => projList_ne_nil m τ Γ a o hΓ)
+  constructor
+  · unfold bestBackupAtV backupAll
+    simp only []
+    apply mem_unionTo m.A _ (argmaxTo (m.A - 1) (fun a => dot m.S b (bestRowToV m.S b m.O (projList m τ Γ a))))
+    · have := AITB.MDP.argmaxTo_le (m.A - 1) (fun a => dot m.S b (bestRowToV m.S b m.O (projList m τ Γ a))); omega
+    · exact bestRowToV_mem m.S b m.O _ (fun o _ => projList_ne_nil m τ Γ _ o hΓ)
+  · unfold bestBackupAtV backupAll
+    simp only []
+    rw [hk1, hk, env_unionTo m.S k _ b (fun a _ => backupA_ne_nil m τ Γ hΓ a), hval, AITB.MDP.maxTo_eq_argmax k]
+    have : (fun a => env m.S (backupA m τ Γ a) b) = (fun a => dot m.S b (bestRowToV m.S b m.O (projList m τ Γ a))) := by
+      funext a; exact (hval a).symm
+    rw [this]
 
 /-! ## the new hypotheses are satisfiable -/
 
